@@ -119,7 +119,7 @@ fn plans_for_frame(bytes: &[u8], seed: u64) -> Vec<Plan> {
 
 const BOUNDARY_LENS: [usize; 11] = [0, 1, 124, 125, 126, 127, 128, 65534, 65535, 65536, 65537];
 
-fn arb_frame(max_len: usize) -> impl Strategy<Value = RFrame> {
+pub fn arb_frame(max_len: usize) -> impl Strategy<Value = RFrame> {
     (
         any::<bool>(),
         any::<[bool; 3]>(),
